@@ -389,6 +389,11 @@ func checkPair(res *pairResult, st *oracleStats) []failure {
 								stale = ":stale-init"
 							}
 						}
+						if stale != "" && h.Variant == 3 && forcedSegmentStillOpen(res, cr, e.mux, lo, hi) {
+							// finding F27: in Low-Latency the parts of the segment opened by a parameter change are
+							// advertised at once, the init is regenerated only when that segment completes
+							stale += ":forced-segment-still-open"
+						}
 						fail(cr.Attempt, fmt.Sprintf("C09:%s:tracks:codec-parameters:%s%s", vn, kindNames[mt.Kind], stale),
 							"client track %d reports parameters %s; between write %d (first unit of the first part / segment it downloaded) and write %d (last write started when it had the init) muxer track %d held %v; the whole line: %v",
 							j, ct.Params, lo, hi, e.mux, acc, res.ParamLine[e.mux])
@@ -670,4 +675,47 @@ func paramWindow(h *history, res *pairResult, cr *clientRun, mux int) (lo, hi in
 		// a body without samples: look at the next one
 	}
 	return 0, 0, "no init / no media body downloaded"
+}
+
+// forcedSegmentStillOpen: the stale init is explained by finding F27 and by nothing else. Let c be the write
+// of the parameter change that established the set in force at min(lo, hi) - the set the client should have
+// reported. True iff (1) the leading stream rotated its segment during write c (the change opened a new
+// segment), and (2) the write that CLOSED that segment (the next rotation) had not completed when the
+// client's request for this stream's init STARTED (no rotation after c at all counts as not completed).
+// Everything else - no rotation at the change, or an init requested after the forced segment was complete -
+// keeps the plain ":stale-init".
+func forcedSegmentStillOpen(res *pairResult, cr *clientRun, mux int, lo, hi int) bool {
+	at := lo
+	if hi < at {
+		at = hi
+	}
+	c := -1
+	for _, pa := range res.ParamLine[mux] {
+		if pa.Op <= at {
+			c = pa.Op
+		}
+	}
+	if c < 0 {
+		return false
+	}
+	rotatedAtChange := false
+	closeAt := 1 << 60
+	for _, k := range res.SegCloses {
+		if k == c {
+			rotatedAtChange = true
+		}
+		if k > c && k < closeAt {
+			closeAt = k
+		}
+	}
+	if !rotatedAtChange {
+		return false
+	}
+	sid := streamIDOf(&res.Desc.H, mux)
+	for _, e := range cr.Reqs {
+		if mi := reInitP.FindStringSubmatch(e.Path); mi != nil && mi[1] == sid && e.Done && e.Status == 200 {
+			return e.DoneAtStart <= closeAt // write closeAt completed iff DoneAtStart >= closeAt+1
+		}
+	}
+	return false
 }
